@@ -413,11 +413,14 @@ def main_check(prop, tier, seed):
     cov = {}
     samples = []
     vsig = Counter()
-    led_calls, led_kw = Counter(), {}
+    led_calls, led_kw, led_sh = Counter(), {}, {}
     for r in results:
         led_calls.update(r.get('argledger', {}).get('calls', {}))
         for fn_, d_ in r.get('argledger', {}).get('kwargs', {}).items():
             led_kw.setdefault(fn_, Counter()).update(d_)
+        for fn_, d_ in r.get('argledger', {}).get('shapes', {}).items():
+            for p_, v_ in d_.items():
+                led_sh.setdefault(fn_, {}).setdefault(p_, set()).update(v_)
         vsig.update(r.get('vsig', {}))
         obs.update(r['obs'])
         ops.update(r['ops'])
@@ -482,7 +485,8 @@ def main_check(prop, tier, seed):
         'required_missing': missing,
         'anchor_line_coverage': anchor_cov,
         # calls the check itself made to public petl functions, and the keyword arguments it passed (probes.ArgLedger)
-        'petl_calls_by_function': {fn_: {'calls': n_, 'keyword_arguments': dict(sorted(led_kw.get(fn_, {}).items()))}
+        'petl_calls_by_function': {fn_: {'calls': n_, 'keyword_arguments': dict(sorted(led_kw.get(fn_, {}).items())),
+                                         'argument_forms': {p_: sorted(v_) for p_, v_ in sorted(led_sh.get(fn_, {}).items())}}
                                    for fn_, n_ in sorted(led_calls.items())},
         'known_findings_hit': {fid: k['count'] for fid, k in known.items()},
         'inconclusive_cases': len(inconclusive),
